@@ -57,11 +57,13 @@ def generate(repo):
         count(src, rel, r"&received_buf\[2\.\.received_len\s*\+\s*2\]", 1)
         count(src, rel, r"response_buf\[0\.\.2\]\.copy_from_slice\(&u16::to_be_bytes\(response_len\s+as\s+u16\)\);", 1)
         count(src, rel, r"&response_buf\[0\.\.2\s*\+\s*response_len\]", 1)
-        # a response-less request ends the connection through the draining close (never a bare drop of the socket)
-        count(src, rel, r"Response::None\s*=>\s*return\s+close_after_draining\(&mut socket, &mut received_buf\)", 1)
-        count(src, rel, r"Response::None\s*=>\s*return\s+Ok\(\(\)\)", 0)
-        count(src, rel, r"fn close_after_draining\(socket: &mut TcpStream, scratch_buf: &mut \[u8\]\)", 1)
-        count(src, rel, r"socket\.shutdown\((?:Shutdown::Write)?\)", 1)
+        # a response-less request ends the connection through the draining close (never a bare drop of the socket);
+        # emitted as a constant (pinned to 1 in Props/C30.v) so that the unfixed tree breaks only C30's proofs
+        drains = (len(re.findall(r"Response::None\s*=>\s*return\s+close_after_draining\(&mut socket, &mut received_buf\)", src)) == 1
+                  and len(re.findall(r"Response::None\s*=>\s*return\s+Ok\(\(\)\)", src)) == 0
+                  and len(re.findall(r"fn close_after_draining\(socket: &mut TcpStream, scratch_buf: &mut \[u8\]\)", src)) == 1
+                  and len(re.findall(r"socket\.shutdown\((?:Shutdown::Write)?\)", src)) == 1)
+        out.append(f"Definition TCP_CLOSE_AFTER_NONE_DRAINS_{tag} : N := {coq_N(1 if drains else 0)}.")
         count(src, rel, r"if\s+n_read_this_time\s*==\s*0\s*\{", 1)
         out.append("")
     src = read(repo, "src/io/mod.rs")
